@@ -48,7 +48,7 @@ KINDS = ["counter", "tally", "wtally", "persistent"]
 def gen_model(rng):
     prog = program.gen_program(rng, clock="float",
                                n_events=rng.choice([3, 5, 8, 12, 20]),
-                               p_cancel=0.05, p_abs=0.1)
+                               p_cancel=0.05, p_abs=0.35, p_pre=0.6)
     n_streams = rng.randint(1, 3)
     dists = []
     for _ in range(rng.randint(2, 5)):
